@@ -135,6 +135,8 @@ def tla(t):
         return f'[c |-> "fn", ps |-> <<{ps}>>, r |-> {tla(t[2])}, async |-> {"TRUE" if t[3] else "FALSE"}]'
     if c == "inst":
         return '[c |-> "inst", ex |-> ' + fun(t[1]) + "]"
+    if c == "tyof":
+        return '[c |-> "tyof", t |-> ' + tla(t[1]) + "]"
     if c == "comp":
         return '[c |-> "comp", im |-> ' + fun(t[1]) + ", ex |-> " + fun(t[2]) + "]"
     if c == "mod":
@@ -234,6 +236,12 @@ class Wat:
         out = []
         for k, v in d.items():
             scope = []
+            if v[0] == "tyof":
+                # a TYPE export whose type is the given function type (not an item of that type)
+                self.n += 1
+                raw = f"${self.prefix}f{self.n}"
+                out.append(f'(type {raw} {self.item_type(v[1], scope)}) ({word} "{k}" (type (eq {raw})))')
+                continue
             ty = self.item_type(v, scope)
             for name, b in scope:
                 raw = name + "x"
@@ -262,8 +270,12 @@ def emit():
     case_values = [("record", [("URL", U8)]), ("record", [("url", U8)]), ("variant", [("A", None), ("b", U8)]),
                    ("enum", ["A", "b"]), ("flags", ["a", "B"]), ("record", [("a-URL", U8)]), ("record", [("a-url", U8)])]
     case_funcs = [("fn", [("A", U8)], None, False), ("fn", [("a-URL", STR)], None, False), ("fn", [("a-url", STR)], None, False)]
+    # a type export whose type is a function type, next to the function export of that type (kinds of the exports differ)
+    f0, f1 = ("fn", [], None, False), ("fn", [("a", U8)], None, False)
+    type_items = [("inst", {"x": ("tyof", f0)}), ("inst", {"x": ("tyof", f1)}), ("inst", {"x": f0, "y": ("tyof", f1)}),
+                  ("comp", {}, {"e": ("tyof", f0)})]
     for cls, items in (("value", values_depth1() + values_depth2()), ("fn", funcs()), ("inst", instances()), ("comp", components()),
-                       ("mod", modules()), ("value", case_values), ("fn", case_funcs)):
+                       ("mod", modules()), ("value", case_values), ("fn", case_funcs), ("inst", type_items[:3]), ("comp", type_items[3:])):
         for t in items:
             kinds.append((cls, t))
     t = ["---- MODULE Lib_types ----", "\\* GENERATED by lib/universe_types.py -- do not edit", "EXTENDS TLC, Integers"]
